@@ -1,10 +1,492 @@
 //@unit props=C19,C13 tier=quick rlimit=30
 //@file src/algo/predecessor_tree.rs
+// search_by mutates its by-value parameter `s` and returns from inside the loop: the postcondition speaks
+// about the INITIAL s, which an isolated loop body cannot name. Verify loops in the context of their function.
+#![verifier::loop_isolation(false)]
 use vstd::prelude::*;
 use vstd::slice::SliceIndexSpec;
 verus! {
 global size_of usize == 8;
 //@include prelude/std_contracts.rs
+
+// ---------------------------------------------------------------------------------------------
+// abstraction: the predecessor vector as a partial function, k-fold predecessor, predicate answers
+// ---------------------------------------------------------------------------------------------
+
+/// every entry is None or an in-range vertex (the hypothesis of C19; NOT assumed for memory safety)
+spec fn entries_in_range(pr: Seq<Option<usize>>) -> bool {
+    forall|i: int| 0 <= i < pr.len() ==> (#[trigger] pr[i] matches Some(u) ==> u < pr.len())
+}
+
+/// the vertex reached from `s` after following `k` predecessor links; None once the chain has ended
+/// (an entry None, or a vertex that is not in the tree and therefore has no predecessor entry)
+spec fn chain(pr: Seq<Option<usize>>, s: usize, k: nat) -> Option<usize>
+    decreases k,
+{
+    if k == 0 {
+        Some(s)
+    } else {
+        match chain(pr, s, (k - 1) as nat) {
+            Some(u) => if u < pr.len() { pr[u as int] } else { None },
+            None => None,
+        }
+    }
+}
+
+/// "calling f on (a, its predecessor entry b) can return r"
+spec fn says<F: Fn(&usize, &Option<usize>) -> bool>(f: F, a: usize, b: Option<usize>, r: bool) -> bool {
+    f.ensures((&a, &b), r)
+}
+
+spec fn callable<F: Fn(&usize, &Option<usize>) -> bool>(f: F) -> bool {
+    forall|a: usize, b: Option<usize>| #[trigger] f.requires((&a, &b))
+}
+
+spec fn deterministic<F: Fn(&usize, &Option<usize>) -> bool>(f: F) -> bool {
+    forall|a: usize, b: Option<usize>, r1: bool, r2: bool|
+        #[trigger] says(f, a, b, r1) && #[trigger] says(f, a, b, r2) ==> r1 == r2
+}
+
+/// the k-th vertex of the chain exists, is a vertex of the tree, and the predicate accepts it
+spec fn pos_at<F: Fn(&usize, &Option<usize>) -> bool>(pr: Seq<Option<usize>>, f: F, s: usize, k: nat) -> bool {
+    match chain(pr, s, k) {
+        Some(u) => u < pr.len() && says(f, u, pr[u as int], true),
+        None => false,
+    }
+}
+
+/// the k-th vertex of the chain, if it exists and is a vertex of the tree, is rejected by the predicate
+spec fn neg_at<F: Fn(&usize, &Option<usize>) -> bool>(pr: Seq<Option<usize>>, f: F, s: usize, k: nat) -> bool {
+    match chain(pr, s, k) {
+        Some(u) => u < pr.len() ==> says(f, u, pr[u as int], false),
+        None => true,
+    }
+}
+
+/// k is the first position of the chain accepted by the predicate
+spec fn first_hit<F: Fn(&usize, &Option<usize>) -> bool>(pr: Seq<Option<usize>>, f: F, s: usize, k: nat) -> bool {
+    pos_at(pr, f, s, k) && forall|j: nat| #![trigger chain(pr, s, j)] j < k ==> neg_at(pr, f, s, j)
+}
+
+/// p is exactly chain(0), ..., chain(k)
+spec fn is_prefix(pr: Seq<Option<usize>>, s: usize, k: nat, p: Seq<usize>) -> bool {
+    p.len() == k + 1 && forall|i: int| 0 <= i <= k ==> chain(pr, s, i as nat) == Some(#[trigger] p[i])
+}
+
+/// p starts at s, stays inside the tree and each element is the predecessor of the one before it
+spec fn link_path(pr: Seq<Option<usize>>, s: usize, p: Seq<usize>) -> bool {
+    &&& p.len() > 0
+    &&& p[0] == s
+    &&& forall|i: int| 0 <= i < p.len() ==> #[trigger] p[i] < pr.len()
+    &&& forall|i: int| 0 < i < p.len() ==> #[trigger] link(pr, p, i)
+}
+
+/// p[i] is the predecessor of p[i - 1]
+spec fn link(pr: Seq<Option<usize>>, p: Seq<usize>, i: int) -> bool {
+    pr[p[i - 1] as int] == Some(p[i])
+}
+
+spec fn distinct(p: Seq<usize>) -> bool {
+    forall|i: int, j: int| 0 <= i < j < p.len() ==> p[i] != p[j]
+}
+
+/// x was marked: it is chain(i) for some 1 <= i <= k
+spec fn seen(pr: Seq<Option<usize>>, s: usize, k: nat, x: usize) -> bool {
+    exists|i: nat| 1 <= i <= k && chain(pr, s, i) == Some(x)
+}
+
+/// state after walking a self-loop `pred[s] == Some(s)`: the vertex was not pushed again; the next
+/// iteration necessarily leaves the loop through the `visited` test
+spec fn dead(pr: Seq<Option<usize>>, s0: usize, k: nat, s: usize, vis: Seq<bool>) -> bool {
+    &&& k >= 1
+    &&& s < pr.len()
+    &&& s < vis.len()
+    &&& chain(pr, s0, (k - 1) as nat) == Some(s)
+    &&& pr[s as int] == Some(s)
+    &&& vis[s as int]
+}
+
+spec fn count_false(v: Seq<bool>) -> nat
+    decreases v.len(),
+{
+    if v.len() == 0 {
+        0
+    } else {
+        count_false(v.drop_last()) + if v.last() { 0nat } else { 1nat }
+    }
+}
+
+// ---------------------------------------------------------------------------------------------
+// lemmas
+// ---------------------------------------------------------------------------------------------
+
+proof fn lemma_count_false_update(v: Seq<bool>, i: int)
+    requires 0 <= i < v.len(), !v[i],
+    ensures count_false(v.update(i, true)) < count_false(v),
+    decreases v.len(),
+{
+    let w = v.update(i, true);
+    if i == v.len() - 1 {
+        assert(w.drop_last() =~= v.drop_last());
+    } else {
+        assert(w.drop_last() =~= v.drop_last().update(i, true));
+        lemma_count_false_update(v.drop_last(), i);
+    }
+}
+
+/// while the chain is alive at k, every earlier position is a vertex of the tree
+proof fn lemma_chain_alive_before(pr: Seq<Option<usize>>, s: usize, k: nat, j: nat)
+    requires chain(pr, s, k) is Some, j < k,
+    ensures chain(pr, s, j) matches Some(u) && u < pr.len(),
+    decreases k,
+{
+    if j + 1 < k {
+        lemma_chain_alive_before(pr, s, (k - 1) as nat, j);
+    }
+}
+
+/// once the chain has ended (None, or left the tree) it stays ended
+proof fn lemma_chain_ended_after(pr: Seq<Option<usize>>, s: usize, k: nat, n: nat)
+    requires
+        chain(pr, s, k) matches Some(u) ==> u >= pr.len(),
+        n > k,
+    ensures chain(pr, s, n) is None,
+    decreases n,
+{
+    if n > k + 1 {
+        lemma_chain_ended_after(pr, s, k, (n - 1) as nat);
+    }
+}
+
+/// chain(i) == chain(i + p)  ==>  chain(i + m) == chain(i + p + m)
+proof fn lemma_periodic(pr: Seq<Option<usize>>, s: usize, i: nat, p: nat, m: nat)
+    requires chain(pr, s, i) == chain(pr, s, i + p),
+    ensures chain(pr, s, i + m) == chain(pr, s, i + p + m),
+    decreases m,
+{
+    if m > 0 {
+        lemma_periodic(pr, s, i, p, (m - 1) as nat);
+        assert(chain(pr, s, (i + m - 1) as nat) == chain(pr, s, (i + p + m - 1) as nat));
+    }
+}
+
+/// the chain ended right after position k and nothing up to k was accepted: nothing is ever accepted
+proof fn lemma_ended_all_neg<F: Fn(&usize, &Option<usize>) -> bool>(pr: Seq<Option<usize>>, f: F, s: usize, k: nat)
+    requires
+        forall|j: nat| j <= k ==> neg_at(pr, f, s, j),
+        chain(pr, s, k + 1) matches Some(u) ==> u >= pr.len(),
+    ensures
+        forall|n: nat| neg_at(pr, f, s, n),
+{
+    assert forall|n: nat| neg_at(pr, f, s, n) by {
+        if n > k + 1 {
+            lemma_chain_ended_after(pr, s, k + 1, n);
+        }
+    }
+}
+
+/// position k+1 revisits position i <= k and nothing up to k was accepted: nothing is ever accepted
+proof fn lemma_cycle_neg<F: Fn(&usize, &Option<usize>) -> bool>(pr: Seq<Option<usize>>, f: F, s: usize, k: nat, i: nat, n: nat)
+    requires
+        forall|j: nat| j <= k ==> neg_at(pr, f, s, j),
+        i <= k,
+        chain(pr, s, k + 1) == chain(pr, s, i),
+    ensures
+        neg_at(pr, f, s, n),
+    decreases n,
+{
+    if n > k {
+        let p = (k + 1 - i) as nat;
+        let m = (n - p - i) as nat;
+        lemma_periodic(pr, s, i, p, m);
+        assert(i + m == n - p && i + p + m == n);
+        lemma_cycle_neg(pr, f, s, k, i, (n - p) as nat);
+    }
+}
+
+proof fn lemma_cycle_all_neg<F: Fn(&usize, &Option<usize>) -> bool>(pr: Seq<Option<usize>>, f: F, s: usize, k: nat, i: nat)
+    requires
+        forall|j: nat| j <= k ==> neg_at(pr, f, s, j),
+        i <= k,
+        chain(pr, s, k + 1) == chain(pr, s, i),
+    ensures
+        forall|n: nat| neg_at(pr, f, s, n),
+{
+    assert forall|n: nat| neg_at(pr, f, s, n) by {
+        lemma_cycle_neg(pr, f, s, k, i, n);
+    }
+}
+
+/// the readable consequences of "p is the chain up to its first accepted position"
+proof fn lemma_first_hit_path<F: Fn(&usize, &Option<usize>) -> bool>(pr: Seq<Option<usize>>, f: F, s: usize, k: nat, p: Seq<usize>)
+    requires
+        deterministic(f),
+        first_hit(pr, f, s, k),
+        is_prefix(pr, s, k, p),
+    ensures
+        link_path(pr, s, p),
+        says(f, p.last(), pr[p.last() as int], true),
+        forall|i: int| 0 <= i < p.len() - 1 ==> says(f, #[trigger] p[i], pr[p[i] as int], false),
+        distinct(p),
+{
+    assert(chain(pr, s, 0) == Some(p[0]));
+    assert(chain(pr, s, k) == Some(p[k as int]));
+    assert forall|i: int| 0 <= i < p.len() implies #[trigger] p[i] < pr.len() by {
+        assert(chain(pr, s, i as nat) == Some(p[i]));
+        if i < k {
+            lemma_chain_alive_before(pr, s, k, i as nat);
+        }
+    }
+    assert forall|i: int| 0 < i < p.len() implies #[trigger] link(pr, p, i) by {
+        assert(chain(pr, s, i as nat) == Some(p[i]));
+        assert(chain(pr, s, (i - 1) as nat) == Some(p[i - 1]));
+    }
+    assert forall|i: int| 0 <= i < p.len() - 1 implies says(f, #[trigger] p[i], pr[p[i] as int], false) by {
+        assert(chain(pr, s, i as nat) == Some(p[i]));
+        assert(neg_at(pr, f, s, i as nat));
+    }
+    assert forall|i: int, j: int| 0 <= i < j < p.len() implies p[i] != p[j] by {
+        if p[i] == p[j] {
+            assert(chain(pr, s, i as nat) == Some(p[i]));
+            assert(chain(pr, s, j as nat) == Some(p[j]));
+            let per = (j - i) as nat;
+            let m = (k - j) as nat;
+            assert(i as nat + per == j as nat);
+            lemma_periodic(pr, s, i as nat, per, m);
+            let e = (i + m) as nat;
+            assert(i as nat + per + m == k);
+            assert(chain(pr, s, e) == chain(pr, s, k));
+            assert(e < k);
+            assert(neg_at(pr, f, s, e));
+            assert(pos_at(pr, f, s, k));
+        }
+    }
+}
+
+
+/// the predicate rejects every vertex of the tree that the chain from s ever reaches
+spec fn never<F: Fn(&usize, &Option<usize>) -> bool>(pr: Seq<Option<usize>>, f: F, s: usize) -> bool {
+    forall|n: nat| #![trigger chain(pr, s, n)] neg_at(pr, f, s, n)
+}
+
+/// what the Some(path) answer means (chain form + readable form)
+#[verifier::opaque]
+spec fn found<F: Fn(&usize, &Option<usize>) -> bool>(pr: Seq<Option<usize>>, f: F, s: usize, p: Seq<usize>) -> bool {
+    &&& exists|k: nat| first_hit(pr, f, s, k) && is_prefix(pr, s, k, p)
+    &&& link_path(pr, s, p)
+    &&& says(f, p.last(), pr[p.last() as int], true)
+    &&& forall|i: int| 0 <= i < p.len() - 1 ==> says(f, #[trigger] p[i], pr[p[i] as int], false)
+    &&& distinct(p)
+}
+
+/// loop invariant of search_by (k = number of links followed so far, a ghost counter)
+#[verifier::opaque]
+spec fn inv<F: Fn(&usize, &Option<usize>) -> bool>(pr: Seq<Option<usize>>, f: F, s0: usize, k: nat, s: usize, vis: Seq<bool>, path: Seq<usize>) -> bool {
+    &&& s0 < pr.len()
+    &&& s < pr.len()
+    &&& vis.len() == pr.len()
+    &&& chain(pr, s0, k) == Some(s)
+    &&& forall|j: nat| j < k ==> neg_at(pr, f, s0, j)
+    &&& forall|x: int| 0 <= x < vis.len() && #[trigger] vis[x] ==> seen(pr, s0, k, x as usize)
+    &&& (dead(pr, s0, k, s, vis) || is_prefix(pr, s0, k, path))
+}
+
+proof fn lemma_init<F: Fn(&usize, &Option<usize>) -> bool>(pr: Seq<Option<usize>>, f: F, s0: usize, vis: Seq<bool>, path: Seq<usize>)
+    requires
+        s0 < pr.len(),
+        vis.len() == pr.len(),
+        forall|x: int| 0 <= x < vis.len() ==> !vis[x],
+        path.len() == 1,
+        path[0] == s0,
+    ensures
+        inv(pr, f, s0, 0, s0, vis, path),
+{
+    reveal(inv);
+    assert(chain(pr, s0, 0) == Some(s0));
+    assert(is_prefix(pr, s0, 0, path));
+}
+
+/// the predicate accepted the current vertex: the path built so far is the answer
+proof fn lemma_hit<F: Fn(&usize, &Option<usize>) -> bool>(pr: Seq<Option<usize>>, f: F, s0: usize, k: nat, s: usize, vis: Seq<bool>, path: Seq<usize>)
+    requires
+        inv(pr, f, s0, k, s, vis, path),
+        deterministic(f),
+        s < pr.len(),
+        says(f, s, pr[s as int], true),
+    ensures
+        found(pr, f, s0, path),
+{
+    reveal(inv);
+    if dead(pr, s0, k, s, vis) {
+        assert(neg_at(pr, f, s0, (k - 1) as nat));
+        assert(says(f, s, pr[s as int], false));
+        assert(false);
+    }
+    assert(pos_at(pr, f, s0, k));
+    assert(first_hit(pr, f, s0, k));
+    lemma_first_hit_path(pr, f, s0, k, path);
+    reveal(found);
+}
+
+proof fn lemma_miss<F: Fn(&usize, &Option<usize>) -> bool>(pr: Seq<Option<usize>>, f: F, s0: usize, k: nat, s: usize, vis: Seq<bool>, path: Seq<usize>)
+    requires
+        inv(pr, f, s0, k, s, vis, path),
+        s < pr.len(),
+        says(f, s, pr[s as int], false),
+    ensures
+        forall|j: nat| j <= k ==> neg_at(pr, f, s0, j),
+        chain(pr, s0, k + 1) == pr[s as int],
+{
+    reveal(inv);
+    assert(neg_at(pr, f, s0, k));
+    assert(chain(pr, s0, (k + 1 - 1) as nat) == Some(s));
+}
+
+/// leaving the loop because the chain ended (entry None, or an entry that is not a vertex of the tree)
+proof fn lemma_break_ended<F: Fn(&usize, &Option<usize>) -> bool>(pr: Seq<Option<usize>>, f: F, s0: usize, k: nat, s: usize, vis: Seq<bool>, path: Seq<usize>)
+    requires
+        inv(pr, f, s0, k, s, vis, path),
+        s < pr.len(),
+        says(f, s, pr[s as int], false),
+        pr[s as int] matches Some(v) ==> v >= pr.len(),
+    ensures
+        never(pr, f, s0),
+{
+    lemma_miss(pr, f, s0, k, s, vis, path);
+    lemma_ended_all_neg(pr, f, s0, k);
+}
+
+/// leaving the loop because the next vertex is marked: the chain has entered a cycle that was inspected completely
+proof fn lemma_break_visited<F: Fn(&usize, &Option<usize>) -> bool>(pr: Seq<Option<usize>>, f: F, s0: usize, k: nat, s: usize, vis: Seq<bool>, path: Seq<usize>, v: usize)
+    requires
+        inv(pr, f, s0, k, s, vis, path),
+        s < pr.len(),
+        says(f, s, pr[s as int], false),
+        pr[s as int] == Some(v),
+        v < vis.len(),
+        vis[v as int],
+    ensures
+        never(pr, f, s0),
+{
+    lemma_miss(pr, f, s0, k, s, vis, path);
+    assert(seen(pr, s0, k, v)) by { reveal(inv); }
+    let i = choose|i: nat| 1 <= i <= k && chain(pr, s0, i) == Some(v);
+    lemma_cycle_all_neg(pr, f, s0, k, i);
+}
+
+/// following one more link
+proof fn lemma_step<F: Fn(&usize, &Option<usize>) -> bool>(pr: Seq<Option<usize>>, f: F, s0: usize, k: nat, s: usize, vis: Seq<bool>, path: Seq<usize>, v: usize)
+    requires
+        inv(pr, f, s0, k, s, vis, path),
+        s < pr.len(),
+        says(f, s, pr[s as int], false),
+        pr[s as int] == Some(v),
+        v < pr.len(),
+        v < vis.len(),
+        !vis[v as int],
+    ensures
+        inv(pr, f, s0, k + 1, v, vis.update(v as int, true), if v != s { path.push(v) } else { path }),
+        count_false(vis.update(v as int, true)) < count_false(vis),
+{
+    lemma_miss(pr, f, s0, k, s, vis, path);
+    reveal(inv);
+    let vis2 = vis.update(v as int, true);
+    let path2 = if v != s { path.push(v) } else { path };
+    lemma_count_false_update(vis, v as int);
+    assert(!dead(pr, s0, k, s, vis));
+    assert(chain(pr, s0, k + 1) == Some(v));
+    assert forall|j: nat| j < k + 1 implies neg_at(pr, f, s0, j) by {}
+    assert forall|x: int| 0 <= x < vis2.len() && #[trigger] vis2[x] implies seen(pr, s0, k + 1, x as usize) by {
+        if x == v {
+            assert(1 <= k + 1 <= k + 1 && chain(pr, s0, k + 1) == Some(x as usize));
+        } else {
+            assert(vis[x]);
+            assert(seen(pr, s0, k, x as usize));
+            let i = choose|i: nat| 1 <= i <= k && chain(pr, s0, i) == Some(x as usize);
+            assert(1 <= i <= k + 1 && chain(pr, s0, i) == Some(x as usize));
+        }
+    }
+    if v != s {
+        assert(is_prefix(pr, s0, k + 1, path2));
+    } else {
+        assert(chain(pr, s0, ((k + 1) - 1) as nat) == Some(v));
+        assert(dead(pr, s0, k + 1, v, vis2));
+    }
+}
+
+// ---------------------------------------------------------------------------------------------
+// meta-lemmas: what the contract means (not used by the proofs of the code)
+// ---------------------------------------------------------------------------------------------
+
+/// under the hypothesis of C19 (entries in range, start vertex in the tree) the chain never leaves the
+/// tree, so "the chain ends" just means "an entry None was met"
+proof fn lemma_in_range_chain(pr: Seq<Option<usize>>, s: usize, k: nat)
+    requires entries_in_range(pr), s < pr.len(),
+    ensures chain(pr, s, k) matches Some(u) ==> u < pr.len(),
+    decreases k,
+{
+    if k > 0 {
+        lemma_in_range_chain(pr, s, (k - 1) as nat);
+    }
+}
+
+/// the postcondition of search_by determines the answer: Some/None are mutually exclusive and the path is unique
+proof fn lemma_answer_unique<F: Fn(&usize, &Option<usize>) -> bool>(pr: Seq<Option<usize>>, f: F, s: usize, p1: Seq<usize>, p2: Seq<usize>)
+    requires deterministic(f), found(pr, f, s, p1),
+    ensures
+        !never(pr, f, s),
+        found(pr, f, s, p2) ==> p1 == p2,
+{
+    reveal(found);
+    let k1 = choose|k: nat| first_hit(pr, f, s, k) && is_prefix(pr, s, k, p1);
+    assert(pos_at(pr, f, s, k1));
+    if never(pr, f, s) {
+        assert(neg_at(pr, f, s, k1));
+    }
+    if found(pr, f, s, p2) {
+        let k2 = choose|k: nat| first_hit(pr, f, s, k) && is_prefix(pr, s, k, p2);
+        assert(pos_at(pr, f, s, k2));
+        if k1 < k2 { assert(neg_at(pr, f, s, k1)); }
+        if k2 < k1 { assert(neg_at(pr, f, s, k2)); }
+        assert(p1 =~= p2);
+    }
+}
+
+/// rustdoc example of `search`, and a cyclic vector, decided from the contract alone
+fn doc_examples() {
+    let t = PredecessorTree { pred: vec![Some(1usize), Some(2usize), Some(3usize), None] };
+    let r = t.search(0, 3);
+    proof {
+        reveal_with_fuel(chain, 5);
+        assert(chain(t.pred@, 0, 3) == Some(3usize));
+        assert(chain(t.pred@, 0, 2) == Some(2usize));
+        assert(chain(t.pred@, 0, 1) == Some(1usize));
+        assert(chain(t.pred@, 0, 0) == Some(0usize));
+    }
+    assert(r is Some);
+    assert(r->0@ =~= seq![0usize, 1, 2, 3]);
+
+    let c = PredecessorTree { pred: vec![Some(1usize), Some(2usize), Some(0usize), None] };
+    let q = c.search(0, 3);
+    proof {
+        assert forall|k: nat| chain(c.pred@, 0, k) != Some(3usize) by { lemma_circuit(c.pred@, k); }
+    }
+    assert(q is None);
+}
+
+proof fn lemma_circuit(pr: Seq<Option<usize>>, k: nat)
+    requires pr.len() == 4, pr[0] == Some(1usize), pr[1] == Some(2usize), pr[2] == Some(0usize),
+    ensures chain(pr, 0, k) matches Some(u) && u < 3,
+    decreases k,
+{
+    if k > 0 {
+        lemma_circuit(pr, (k - 1) as nat);
+    }
+}
+
+// ---------------------------------------------------------------------------------------------
+// the code under contract
+// ---------------------------------------------------------------------------------------------
 
 /*@struct name=PredecessorTree @*/
 
@@ -12,29 +494,96 @@ impl PredecessorTree {
     /*@fn impl=PredecessorTree name=new
     ensures
         order > 0,
+        r.pred@.len() == order,
+        forall|i: int| 0 <= i < order ==> r.pred@[i] is None,
     @*/
 
+    // `s < self.pred.len()`: for s out of range the function panics in `self.pred[s]` (documented
+    // panic of Vec indexing, a safe operation); vstd's Vec::index demands the bound, so the panic
+    // case is outside this contract. No assumption whatsoever is made on the ENTRIES of `pred`.
     /*@fn impl=PredecessorTree name=search_by
     requires
         s < self.pred.len(),
+        callable(is_target),
+        deterministic(is_target),
     ensures
-        true,
+        match r {
+            Some(p) => found(self.pred@, is_target, s, p@),
+            None => never(self.pred@, is_target, s),
+        },
+    @fn_start
+        let ghost s0 = s;
+        let ghost pr = self.pred@;
+    @before `return Some(`
+        proof {
+            lemma_init(pr, is_target, s0, Seq::new(pr.len(), |i: int| false), seq![s0]);
+            lemma_hit(pr, is_target, s0, 0, s0, Seq::new(pr.len(), |i: int| false), seq![s0]);
+            assert forall|p: Seq<usize>| p.len() == 1 && p[0] == s0 implies #[trigger] found(pr, is_target, s0, p) by {
+                assert(p =~= seq![s0]);
+            }
+        }
+    @before `while let Some(&v)`
+        let ghost mut k: nat = 0;
+        proof {
+            lemma_init(pr, is_target, s0, visited@, path@);
+        }
     @loop 1
     invariant
-        true,
+        pr == self.pred@,
+        callable(is_target),
+        deterministic(is_target),
+        s < pr.len(),
+        visited@.len() == pr.len(),
+        inv(pr, is_target, s0, k, s, visited@, path@),
     decreases
-        0int,
+        count_false(visited@),
+    @before #2 `return Some(`
+        proof {
+            lemma_hit(pr, is_target, s0, k, s, visited@, path@);
+        }
+    @before `if let Some(v) = v`
+        proof {
+            // here is_target(s, pred[s]) has answered false; one proof step per way the iteration can go on
+            match v {
+                None => { lemma_break_ended(pr, is_target, s0, k, s, visited@, path@); }
+                Some(w) => {
+                    if w >= pr.len() {
+                        lemma_break_ended(pr, is_target, s0, k, s, visited@, path@);
+                    } else if visited@[w as int] {
+                        lemma_break_visited(pr, is_target, s0, k, s, visited@, path@, w);
+                    } else {
+                        lemma_step(pr, is_target, s0, k, s, visited@, path@, w);
+                    }
+                }
+            }
+        }
+    @after `s = v;`
+        proof {
+            k = k + 1;
+        }
     @*/
 
+    // search(s, t) is search_by with the predicate "vertex equals t"
     /*@fn impl=PredecessorTree name=search
     requires
         s < self.pred.len(),
     ensures
-        true,
+        match r {
+            Some(p) => exists|k: nat| chain(self.pred@, s, k) == Some(t) && t < self.pred.len()
+                && (forall|j: nat| j < k ==> chain(self.pred@, s, j) != Some(t))
+                && is_prefix(self.pred@, s, k, p@),
+            None => forall|k: nat| !(chain(self.pred@, s, k) == Some(t) && t < self.pred.len()),
+        },
+        r matches Some(p) ==> link_path(self.pred@, s, p@) && p@.last() == t
+            && (forall|i: int| 0 <= i < p@.len() - 1 ==> #[trigger] p@[i] != t)
+            && distinct(p@),
+    @fn_start
+        proof { reveal(found); }
     @closure 1 |v__r: &usize, _p: &Option<usize>| -> (b: bool)
     ensures b == (*v__r == t)
     @*/
 
+    // Index / IndexMut: out-of-range `index` is the documented panic of Vec indexing (outside the contract)
     /*@fn impl=PredecessorTree trait=Index name=index subst=Self::Output=>Option<usize>
     requires
         index < self.pred.len(),
@@ -46,7 +595,8 @@ impl PredecessorTree {
     requires
         index < old(self).pred.len(),
     ensures
-        true,
+        *r == old(self).pred@[index as int],
+        final(self).pred@ == old(self).pred@.update(index as int, *final(r)),
     @*/
 }
 
